@@ -1,4 +1,5 @@
 import Evl.Model.FileSink
+import Evl.Props.C08
 import Evl.Generated.Decisions
 /-!
 # C15 — FileSink rotation triggers, naming and retention follow the configuration
@@ -62,6 +63,71 @@ theorem prune_keeps_foreign (c : Cfg) (s : St) (x : Name × Nat) (hx : x ∈ s.d
     | foreign k => simp [isTs]
     | ts n => exact absurd hname (hn n)
 
+/-- the timestamped entries that survive `pruneFiles`' filter of the directory -/
+theorem filterMap_tsOf_filter (gone : List Nat) (d : List (Name × Nat)) :
+    (d.filter (fun x => !(gone.contains x.2 && isTs x.1))).filterMap tsOf =
+      (d.filterMap tsOf).filter (fun y => !gone.contains y.2) := by
+  induction d with
+  | nil => rfl
+  | cons x xs ih =>
+    obtain ⟨xn, xi⟩ := x
+    have hp : isTs Name.plain = false := rfl
+    have hf : ∀ k, isTs (Name.foreign k) = false := fun _ => rfl
+    have ht : ∀ n, isTs (Name.ts n) = true := fun _ => rfl
+    cases xn with
+    | plain =>
+      simp only [List.filter_cons, hp, Bool.and_false, Bool.not_false, if_true, List.filterMap_cons, tsOf]
+      exact ih
+    | foreign k =>
+      simp only [List.filter_cons, hf, Bool.and_false, Bool.not_false, if_true, List.filterMap_cons, tsOf]
+      exact ih
+    | ts n =>
+      by_cases hg : gone.contains xi = true
+      · simp only [List.filter_cons, ht, hg, Bool.and_true, Bool.not_true, Bool.false_eq_true, if_false,
+          List.filterMap_cons, tsOf]
+        exact ih
+      · have hg' : gone.contains xi = false := by simpa using hg
+        simp only [List.filter_cons, ht, hg', Bool.and_true, Bool.not_false, if_true,
+          List.filterMap_cons, tsOf, ih]
+
+/-- the inode ids of the timestamped entries are a sublist of all the directory's inode ids -/
+theorem tsOf_snd_sublist (d : List (Name × Nat)) : ((d.filterMap tsOf).map (·.2)).Sublist (d.map (·.2)) := by
+  induction d with
+  | nil => exact List.Sublist.slnil
+  | cons x xs ih =>
+    obtain ⟨xn, xi⟩ := x
+    cases xn with
+    | plain => simp only [List.filterMap_cons, tsOf, List.map_cons]; exact List.Sublist.cons _ ih
+    | foreign k => simp only [List.filterMap_cons, tsOf, List.map_cons]; exact List.Sublist.cons _ ih
+    | ts n => simp only [List.filterMap_cons, tsOf, List.map_cons]; exact List.Sublist.cons₂ _ ih
+
+/-- **Retention bound**: in every state the ordering invariant describes (every reachable state,
+`ord_run`), `pruneFiles` with MaxFiles > 0 leaves at most MaxFiles of the sink's own timestamped
+files, and they are the newest ones (what is left is the tail of the oldest-first listing). -/
+theorem prune_bound {c : Cfg} {s : St} (ho : Ord c s) (hm : c.maxFiles > 0) :
+    (prune c s).dir.filterMap tsOf = (s.dir.filterMap tsOf).drop ((s.dir.filterMap tsOf).length - c.maxFiles) ∧
+    ((prune c s).dir.filterMap tsOf).length ≤ c.maxFiles := by
+  have hz : (c.maxFiles == 0) = false := by simp; omega
+  have h1 : tsFiles s.dir = s.dir.filterMap tsOf := Evl.C08.sortTs_of_sorted _ ho.tsSorted
+  have hnd : ((s.dir.filterMap tsOf).map (·.2)).Nodup := by
+    have : (s.dir.map (·.2)).Nodup := by rw [ho.dirInodes]; exact lt_pairwise_nodup ho.sorted
+    exact this.sublist (tsOf_snd_sublist s.dir)
+  have heq : (prune c s).dir.filterMap tsOf =
+      (s.dir.filterMap tsOf).drop ((s.dir.filterMap tsOf).length - c.maxFiles) := by
+    unfold prune
+    simp only [hz, Bool.false_eq_true, if_false]
+    rw [filterMap_tsOf_filter, h1, List.map_take]
+    exact Evl.C08.filter_take_drop (fun x : Nat × Nat => x.2) _ hnd _
+  refine ⟨heq, ?_⟩
+  rw [heq, List.length_drop]
+  omega
+
+/-- ... for every history of writes, Reopen calls and external renames: whatever state the sink has
+reached, the next `pruneFiles` brings its timestamped files down to MaxFiles. -/
+theorem retention_bound (c : Cfg) (ops : List Op) (hm : c.maxFiles > 0) :
+    ((prune c (run c {} ops)).dir.filterMap tsOf).length ≤ c.maxFiles :=
+  (prune_bound (ord_run c ops {} (ord_init c)) hm).2
+
 /-- a file is created with the configured mode (0600 when unset) -/
 theorem created_mode (c : Cfg) (s : St) (h : s.fd = none)
     (hnew : lookup s.dir (openName c s) = none) :
@@ -88,5 +154,7 @@ example : ((run ⟨100, 1, 0, true, 0⟩ {} demoOps).dir, contents (run ⟨100, 
     ([(Name.ts 2, 1), (Name.plain, 3)], [1, 2, 3, 4, 5]) := by decide
 example : contents (run ⟨100, 1, 0, true, 0⟩ {} (demoOps ++ [.write 6 60 0, .write 7 60 0, .write 8 60 0])) = [3, 4, 5, 6, 7, 8] := by decide
 example : (run ⟨100, 1, 0, false, 0⟩ {} demoOps).dir = [(Name.ts 1, 1), (Name.ts 2, 2), (Name.ts 3, 3)] := by decide
+-- the retention bound is not vacuous: three files listed, pruneFiles keeps the newest one
+example : (prune ⟨100, 1, 0, false, 0⟩ (run ⟨100, 1, 0, false, 0⟩ {} demoOps)).dir = [(Name.ts 3, 3)] := by decide
 
 end Evl.C15
